@@ -83,7 +83,7 @@ func (t *FFT) Coefficients(dst []complex128, seq []float64) []complex128 {
 //
 // If the length of coeff is not t.Len()/2+1, Sequence will panic.
 // If dst is nil, a new slice is allocated and returned. If dst is not nil and
-// the length of dst does not equal the length of coeff, Sequence will panic.
+// the length of dst does not equal t.Len(), Sequence will panic.
 func (t *FFT) Sequence(dst []float64, coeff []complex128) []float64 {
 	if len(coeff) != t.Len()/2+1 {
 		panic("fourier: coefficients length mismatch")
